@@ -1648,7 +1648,7 @@ def normalize(project) -> List[str]:
             n += fold_dict_building(fn)
             n += inline_function_values(fn)
             if id(fn) in module_of:
-                n += scalarise_records(fn, module_of[id(fn)].top_assigns)
+                n += scalarise_records(fn, module_of[id(fn)].top_assigns, module_of[id(fn)].tree)
             total += n
             if not n:
                 break
